@@ -273,9 +273,12 @@ def drain(ctx):
                    "between is left in the queue with the flag down", fn=f.label, inst=f.qname)
         # the local that receives the queue
         local = None
-        for a in swaps[0]["args"]:
-            p = path(f, f.s(a))
-            if p and p.startswith("l:"):
+        operands = [f.s(a) for a in swaps[0]["args"]]
+        if swaps[0]["k"] == "CXXMemberCallExpr":
+            operands.append(f.s(swaps[0].get("obj")))        # local.swap(*handle) as well as swap(local, *handle)
+        for a in operands:
+            p = path(f, a)
+            if p and re.match(r"^l:[\w$]+$", p) and (a or {}).get("t", "").replace("const ", "").startswith("std::vector<"):
                 local = p
         ok = local is not None
         ctx.ob(rid, ok, f.loc(swaps[0]), "the queue is swapped into a local vector", "", fn=f.label, inst=f.qname)
